@@ -27,6 +27,10 @@ var sharedMaps = map[string]bool{"localAuthData": true, "vipPushCookie": true, "
 type lockWalker struct {
 	fn   string
 	rows []row
+	// optional hooks (c16_fields.go): every call / go statement / assignment target with the lexical lock state
+	onCall  func(c *ast.CallExpr, held heldSet)
+	onGo    func(c *ast.CallExpr)
+	onWrite func(lhs ast.Expr, held heldSet)
 }
 
 func selName(e ast.Expr) (string, bool) {
@@ -131,6 +135,9 @@ func (w *lockWalker) expr(e ast.Node, held heldSet) {
 				return false
 			}
 		case *ast.CallExpr:
+			if w.onCall != nil {
+				w.onCall(t, held)
+			}
 			if id, ok := t.Fun.(*ast.Ident); ok && len(t.Args) >= 1 {
 				if m, ok2 := selName(t.Args[0]); ok2 {
 					switch id.Name {
@@ -205,11 +212,20 @@ func (w *lockWalker) stmt(s ast.Stmt, held heldSet) heldSet {
 			for _, a := range t.Call.Args {
 				w.expr(a, held)
 			}
+		} else if w.onGo != nil {
+			// the callee runs concurrently, with nothing held
+			w.onGo(t.Call)
+			for _, a := range t.Call.Args {
+				w.expr(a, held)
+			}
 		} else {
 			w.expr(t.Call, held)
 		}
 	case *ast.AssignStmt:
 		for i, l := range t.Lhs {
+			if w.onWrite != nil {
+				w.onWrite(l, held)
+			}
 			if ix, ok := l.(*ast.IndexExpr); ok {
 				if m, ok2 := selName(ix.X); ok2 {
 					w.add(ix, m, "write", held)
@@ -233,6 +249,9 @@ func (w *lockWalker) stmt(s ast.Stmt, held heldSet) heldSet {
 			w.expr(r, held)
 		}
 	case *ast.IncDecStmt:
+		if w.onWrite != nil {
+			w.onWrite(t.X, held)
+		}
 		if ix, ok := t.X.(*ast.IndexExpr); ok {
 			if m, ok2 := selName(ix.X); ok2 {
 				w.add(ix, m, "write", held)
